@@ -218,8 +218,10 @@ impl Rank {
         Self(buf)
     }
 
-    fn count_zeros(&self) -> u32 {
-        self.0.iter().copied().map(u64::count_zeros).sum()
+    /// The number of set bits; unlike a count of zeros this does not depend
+    /// on how many words are currently allocated.
+    fn count_ones(&self) -> u32 {
+        self.0.iter().copied().map(u64::count_ones).sum()
     }
 
     fn is_all_zeros(&self) -> bool {
@@ -264,9 +266,11 @@ impl BitOrAssign<&Rank> for Rank {
     fn bitor_assign(&mut self, rhs: &Self) {
         let missing = rhs.0.len().saturating_sub(self.0.len());
         self.0.insert_from_slice(0, &rhs.0.as_slice()[..missing]);
+        // words are big-endian, so align the two sequences at the low end
         self.0
             .iter_mut()
-            .zip(rhs.0.iter())
+            .rev()
+            .zip(rhs.0.iter().rev())
             .for_each(|(base, val)| *base |= *val);
     }
 }
@@ -304,7 +308,8 @@ pub fn overlay_feature_variations(
 
     let mut items = Vec::new();
     let mut sorted = boxmap.into_iter().collect::<Vec<_>>();
-    sorted.sort_by_key(|(_, rank)| rank.count_zeros());
+    // most contributing layers first, matching fonttools' `key=-bit_count(rank)`
+    sorted.sort_by_key(|(_, rank)| std::cmp::Reverse(rank.count_ones()));
     for (box_, mut rank) in sorted {
         if rank.is_all_zeros() {
             continue;
